@@ -7,6 +7,6 @@ CONSTANT Skew = 1
 CONSTANT SecMs = 2
 CONSTANT TMax = 3
 CONSTANT DMutant = "none"
-CONSTANT DedupMutant = "first_meta"
+CONSTANT DedupMutant = "none"
 INVARIANT AbsChecked
 CHECK_DEADLOCK FALSE
